@@ -124,7 +124,12 @@ func c06Scenarios(tier string) []e1lib.Scenario {
 		}
 		// generators with a consumer that cancels and then keeps receiving are liveness scenarios (see e1lib.Scenario.Live)
 		live := (c.Stage == "emit" || c.Stage == "unfold") && c.Stop == -1 && c.CancelAfter > 0
-		out = append(out, e1lib.Scenario{Name: stageName(c), Root: func() { stage.Scenario(c) }, Check: c06Check(c), Bound: b, Sample: c, Live: live})
+		// a function that fails for ever: once the context is cancelled the generator must stop within the iteration it is
+		// in. After cancel try.catch may legitimately win its select against ctx.Done() any number of times while the error
+		// reader is ready, so this is a liveness scenario as well (explored under the cancel-priority restriction)
+		live = live || (c.Stage == "emit" && c.FailFrom > 0)
+		sc := e1lib.Scenario{Name: stageName(c), Root: func() { stage.Scenario(c) }, Check: c06Check(c), Bound: b, Sample: c, Live: live}
+		out = append(out, sc)
 	}
 	stops := func(n int) []int {
 		s := []int{-1, 0}
@@ -257,6 +262,23 @@ func c06Scenarios(tier string) []e1lib.Scenario {
 							add(c)
 						}
 					}
+				}
+			}
+		}
+	}
+	for cp := 0; cp <= 1; cp++ {
+		for _, rd := range []string{"reader", "none"} {
+			for _, ff := range []int{1, 2} {
+				for _, s := range []int{0, 1} {
+					add(stage.Cfg{Stage: "emit", Cap: cp, Cancel: true, Mode: "try", FailFrom: ff, ErrRd: rd, Stop: s})
+				}
+			}
+		}
+		// Throttling with a zero interval is a plain copy (no pacing), not a crash
+		for k := 0; k <= 2; k++ {
+			for ops := 1; ops <= 2; ops++ {
+				for _, cancel := range []bool{false, true} {
+					add(stage.Cfg{Stage: "throttle", K: k, Cap: cp, Ops: ops, Interval: -1, Cancel: cancel, Stop: -1, Stop2: -1})
 				}
 			}
 		}
